@@ -329,7 +329,7 @@ namespace awkward {
     /// @brief HERE
     inline bool
       is_segment_done() const noexcept {
-      return !(bytecodes_pointer_where() < (
+      return recursion_current_depth_ == 0  ||  !(bytecodes_pointer_where() < (
                    bytecodes_offsets_[(IndexTypeOf<int64_t>)bytecodes_pointer_which() + 1] -
                    bytecodes_offsets_[(IndexTypeOf<int64_t>)bytecodes_pointer_which()]
                ));
